@@ -410,11 +410,19 @@ class ExprGeneratorExp(Expr):
     """Yielded element."""
     generators: Sequence[Expr]
     """Generators iterated on."""
+    implicit: bool = False
+    """Whether the generator is implicit (without parentheses, as the sole argument of a call)."""
 
     def iterate(self, *, flat: bool = True) -> Iterator[str | Expr]:
+        # Generator expressions require parentheses everywhere
+        # except as the sole argument of a call, e.g. `f(a for a in b)`.
+        if not self.implicit:
+            yield "("
         yield from _yield(self.element, flat=flat)
         yield " "
         yield from _join(self.generators, " ", flat=flat)
+        if not self.implicit:
+            yield ")"
 
 
 # YORE: EOL 3.9: Replace `**_dataclass_opts` with `slots=True` within line.
@@ -934,6 +942,8 @@ def _build_call(node: ast.Call, parent: Module | Class, **kwargs: Any) -> Expr:
     function = _build(node.func, parent, **kwargs)
     positional_args = [_build(arg, parent, **kwargs) for arg in node.args]
     keyword_args = [_build(kwarg, parent, function=function, **kwargs) for kwarg in node.keywords]
+    if len(positional_args) == 1 and not keyword_args and isinstance(positional_args[0], ExprGeneratorExp):
+        positional_args[0].implicit = True
     return ExprCall(function, [*positional_args, *keyword_args])
 
 
